@@ -65,11 +65,56 @@ func init() {
 }
 
 func init() {
+	// C12: programs the Go type checker rejects; Eval must return an error (not panic) and run nothing
+	rejectedCleanly := func(src string) func() (bool, string) {
+		return func() (observed bool, detail string) {
+			defer func() {
+				if r := recover(); r != nil {
+					observed, detail = true, fmt.Sprintf("Eval panicked instead of returning an error: %v", r)
+				}
+			}()
+			out, err := verifOutput(src)
+			return err == nil || out != "", fmt.Sprintf("output %q, error %v; the Go type checker rejects the program", out, err)
+		}
+	}
+	const m = "package main\nfunc main() { println(\"ran\"); "
+	verifProtocolScenarios = append(verifProtocolScenarios,
+		verifScenario{"C12/interp.typecheck.arrayLitExpr/*", rejectedCleanly(m + "a := [0]int{0: 1}; println(len(a)) }")},
+		verifScenario{"C12/interp.typecheck.arrayLitExpr/*", rejectedCleanly(m + "x := 1; a := []int{x: 1}; println(len(a)) }")},
+		verifScenario{"C12/interp.typecheck.arrayLitExpr/*", rejectedCleanly(m + "a := []int{1: 1, 0: 3, 4}; println(len(a)) }")},
+		verifScenario{"C12/interp.typecheck.arrayLitExpr/*", rejectedCleanly(m + "a := [2]int{1, 2, 3}; println(len(a)) }")},
+		verifScenario{"C12/interp.typecheck.mapLitExpr/*", rejectedCleanly(m + "a := map[string]int{\"a\": 1, \"a\": 2}; println(len(a)) }")},
+		verifScenario{"C12/interp.typecheck.mapLitExpr/*", rejectedCleanly(m + "a := map[string]int{\"a\": \"b\"}; println(len(a)) }")},
+		verifScenario{"C12/interp.typecheck.structLitExpr/*", rejectedCleanly("package main\ntype T struct{ A, B int }\nfunc main() { println(\"ran\"); t := T{1}; println(t.A) }")},
+		verifScenario{"C12/interp.typecheck.structLitExpr/*", rejectedCleanly("package main\ntype T struct{ A, B int }\nfunc main() { println(\"ran\"); t := T{1, 2, 3}; println(t.A) }")},
+		verifScenario{"C12/interp.typecheck.structLitExpr/*", rejectedCleanly("package main\ntype T struct{ A, B int }\nfunc main() { println(\"ran\"); t := T{A: 1, A: 2}; println(t.A) }")},
+		verifScenario{"C12/interp.typecheck.structLitExpr/*", rejectedCleanly("package main\ntype T struct{ A, B int }\nfunc main() { println(\"ran\"); t := T{1, B: 2}; println(t.A) }")},
+		verifScenario{"C12/interp.typecheck.addressExpr/*", rejectedCleanly(m + "a := map[int]int{1: 2}; p := &a[1]; println(*p) }")},
+		verifScenario{"C12/interp.typecheck.unaryExpr/*", rejectedCleanly(m + "c := make(chan<- int, 1); println(<-c) }")},
+		verifScenario{"C12/interp.typecheck.unaryExpr/*", rejectedCleanly(m + "s := \"a\"; println(-s) }")},
+		verifScenario{"C12/interp.typecheck.starExpr/*", rejectedCleanly(m + "x := 3; println(*x) }")},
+		verifScenario{"C12/interp.typecheck.argument/*", rejectedCleanly("package main\nfunc g(a int, b ...int) int { return a + len(b) }\nfunc main() { println(\"ran\"); s := []string{\"a\"}; println(g(1, s...)) }")},
+		verifScenario{"C12/interp.typecheck.arguments/*", rejectedCleanly("package main\nfunc g(a int, b ...int) int { return a + len(b) }\nfunc main() { println(\"ran\"); println(g()) }")},
+		verifScenario{"C12/interp.Interpreter.cfg/case:indexExpr#2/*", rejectedCleanly(m + "x := 5; println(x[0]) }")},
+		verifScenario{"C12/interp.Interpreter.cfg/case:indexExpr#2/*", rejectedCleanly(m + "c := make(chan int); println(c[0]) }")},
+		verifScenario{"C12/interp.Interpreter.cfg/case:indexExpr#2/*", rejectedCleanly(m + "f := func() {}; println(f[0]) }")},
+		verifScenario{"C12/interp.Interpreter.cfg/case:indexExpr#2/*", rejectedCleanly(m + "a := [2]int{1, 2}; println(a[2]) }")},
+		verifScenario{"C12/interp.Interpreter.cfg/case:callExpr#1/*", rejectedCleanly(m + "x := int(); println(x) }")},
+		verifScenario{"C12/interp.Interpreter.cfg/case:callExpr#1/*", rejectedCleanly("package main\nfunc H[T any](a T) T { return a + 1 }\nfunc main() { println(\"ran\"); println(H[string](\"x\")) }")},
+		verifScenario{"C12/interp.Interpreter.cfg/case:callExpr#1/*", rejectedCleanly("package main\nfunc g(a int) int { return a }\nfunc main() { println(\"ran\"); println(g(\"x\")) }")},
+		verifScenario{"C12/interp.Interpreter.cfg/case:compositeLitExpr#3/*", rejectedCleanly(m + "a := []int{\"x\"}; println(len(a)) }")},
+		verifScenario{"C12/interp.Interpreter.cfg/for:nleft#2/*", rejectedCleanly(m + "var a int; a = \"x\"; println(a) }")},
+	)
+}
+
+func init() {
 	// C12: an imported source package is initialised before the importer's type error is reported
-	verifProtocolScenarios = append(verifProtocolScenarios, verifScenario{"C12/interp.Interpreter.*", func() (bool, string) {
-		out, err := verifImportThenTypeError()
-		return err != nil && out != "", fmt.Sprintf("Eval returned error %v, but the imported package already printed %q", err, out)
-	}})
+	for _, fn := range []string{"CompileAST", "compileSrc", "gta", "gtaRetry"} {
+		verifProtocolScenarios = append(verifProtocolScenarios, verifScenario{"C12/interp.Interpreter." + fn + "/effects:*", func() (bool, string) {
+			out, err := verifImportThenTypeError()
+			return err != nil && out != "", fmt.Sprintf("Eval returned error %v, but the imported package already printed %q", err, out)
+		}})
+	}
 }
 
 func init() {
